@@ -7,6 +7,14 @@ VERIF = os.path.dirname(os.path.dirname(os.path.abspath(__file__)))
 
 # id -> (category, technique, level text, level note, design ref)
 CHECKS = {
+    "C01": ("exploration", "runtime monitor on every simulation entry point + numpy contraction of catalogue matrices as oracle",
+            "Each generated unitary program (qubits/qudits, 1-6 wires, explicit moments, zero-qubit phases) is pushed through "
+            "Circuit.unitary, final_state_vector, Simulator.simulate / simulate_moment_steps / simulate_sweep (prefix reuse), "
+            "DensityMatrixSimulator.simulate and ClassicalStateSimulator under dtype x split_untangled_states x initial-state "
+            "form x qubit-order combinations; every observation is compared with one reference value contracted from catalogue "
+            "matrices outside Cirq, and the caller's initial-state array is checked for writes.",
+            "Trusts the catalogue (C03) and numpy; <=6 wires, <=25 operations; tolerance 1e-4 (complex64) / 1e-7 (complex128).",
+            "DESIGN.md 5/C01"),
     "C03": ("exploration", "runtime monitor at cirq.unitary/kraus/mixture + closed-form catalogue oracle",
             "Every generated gate instance (special-value grid x random reals, all exported families incl. qudit, Google and IonQ "
             "gates, channels, named constants) is observed through cirq.unitary / kraus / mixture / qid_shape and judged against a "
